@@ -253,6 +253,25 @@ func (w *W) SetCase(v any) {
 	w.curCase = b
 }
 
+// Scratch returns a worker handle whose records are thrown away: for the part of a
+// case that only prepares state (its violations belong to other cases).
+func (w *W) Scratch() *W {
+	if s, ok := w.Local["__scratch"].(*W); ok {
+		s.viol, s.sigN = nil, nil
+		return s
+	}
+	s := &W{c: w.c, slot: w.slot, space: w.space, st: newStats(), nt: map[uint64]struct{}{}, samples: map[string]int{}, Local: map[string]any{}}
+	w.Local["__scratch"] = s
+	return s
+}
+
+// AnnotateLast appends a note to the written-out case of the last recorded violation.
+func (w *W) AnnotateLast(note string) {
+	if n := len(w.viol); n > 0 {
+		w.viol[n-1].Human += note
+	}
+}
+
 // Violations returns what this worker has recorded (used by replay).
 func (w *W) Violations() []Violation { return w.viol }
 
